@@ -110,7 +110,7 @@ func opConn(kind string) (string, string) {
 					id = nil
 				}
 				c.Write(idFrame(id))
-				time.Sleep(150 * time.Millisecond) // the handshake is over, the request is on its way: hang up
+				time.Sleep(loadFactor() * 150 * time.Millisecond) // the handshake is over, the request is on its way: hang up
 			}(c)
 		}
 	}()
@@ -162,16 +162,16 @@ func opConn(kind string) (string, string) {
 			readFrame(c)
 			defer c.Close()
 		}
-		time.Sleep(100 * time.Millisecond)
+		time.Sleep(loadFactor() * 100 * time.Millisecond)
 	default:
-		ctx, cancel := context.WithTimeout(context.Background(), 600*time.Millisecond)
+		ctx, cancel := context.WithTimeout(context.Background(), loadFactor()*600*time.Millisecond)
 		nodeN.Request(ctx, idX, msg) // resolved to the scripted endpoint: fails one way or another
 		cancel()
-		time.Sleep(400 * time.Millisecond) // the endpoint has hung up, client.run returned, the removal was handled
+		time.Sleep(loadFactor() * 400 * time.Millisecond) // the endpoint has hung up, client.run returned, the removal was handled
 		atomic.StoreInt32(&phase, 1)
 	}
 	// the round trip to the real member X
-	ctx, cancel := context.WithTimeout(context.Background(), 3*time.Second)
+	ctx, cancel := context.WithTimeout(context.Background(), loadFactor()*3*time.Second)
 	defer cancel()
 	_, err = nodeN.Request(ctx, idX, msg)
 	if err != nil {
@@ -234,6 +234,17 @@ func (f *scriptedEP) serve() {
 			c.SetReadDeadline(time.Time{})
 			c.Write(idFrame(ann))
 			io.Copy(io.Discard, c) // whatever the node sends is ignored; returns when either side closes
+			// a connection the NODE ended (it refuses an announced id that is not the dialled one) is not an open
+			// connection of this endpoint any more: `h` / `o` must not pick it (thorough seed 1:
+			// `conns f2.0;f2.2;…;o2` closed the refused one and left the live one standing)
+			f.mu.Lock()
+			for i, o := range f.open[x] {
+				if o == c {
+					f.open[x] = append(append([]net.Conn{}, f.open[x][:i]...), f.open[x][i+1:]...)
+					break
+				}
+			}
+			f.mu.Unlock()
 		}(c)
 	}
 }
@@ -316,7 +327,8 @@ func opConns(evs string) (string, string) {
 		return real[x]
 	}
 	msg := &vss.Signature{RequestId: []byte("r"), Content: []byte("c")}
-	settle := func() { time.Sleep(120 * time.Millisecond) }
+	lf := loadFactor()
+	settle := func() { time.Sleep(lf * 120 * time.Millisecond) }
 	last, oracle := "-", ""
 	spinOracle := ""
 	served := map[int]bool{} // a request reached the real member x over a connection of this node
@@ -337,7 +349,7 @@ func opConns(evs string) (string, string) {
 			mu.Lock()
 			route[string(memberID(x))] = fl.Addr().String()
 			mu.Unlock()
-			ctx, cancel := context.WithTimeout(context.Background(), 250*time.Millisecond)
+			ctx, cancel := context.WithTimeout(context.Background(), lf*250*time.Millisecond)
 			nodeN.Request(ctx, memberID(x), msg) // never answered: an error one way or another
 			cancel()
 			settle()
@@ -361,7 +373,7 @@ func opConns(evs string) (string, string) {
 			mu.Lock()
 			route[string(memberID(x))] = m.addr
 			mu.Unlock()
-			ctx, cancel := context.WithTimeout(context.Background(), 3*time.Second)
+			ctx, cancel := context.WithTimeout(context.Background(), lf*3*time.Second)
 			_, err := nodeN.Request(ctx, memberID(x), msg)
 			cancel()
 			switch {
@@ -426,4 +438,23 @@ func opFzSpin(evs string) (string, string) {
 		oracle = ""
 	}
 	return "nopanic", oracle
+}
+
+// loadFactor: how much slower than an idle machine goroutines are scheduled right now (1…6), measured as the
+// overshoot of twenty 1 ms sleeps (≈ 22 ms idle). The fixed pauses that stand for "the node has handled what just
+// happened" and the deadlines of round trips that must succeed are multiplied by it, so that machine load does
+// not turn into a disagreement or a not-serving verdict. It only ever lengthens a wait.
+func loadFactor() time.Duration {
+	t0 := time.Now()
+	for i := 0; i < 20; i++ {
+		time.Sleep(time.Millisecond)
+	}
+	f := time.Since(t0) / (25 * time.Millisecond)
+	if f < 1 {
+		f = 1
+	}
+	if f > 6 {
+		f = 6
+	}
+	return f
 }
